@@ -268,7 +268,7 @@ PLAN["C08"] = {
 
 PLAN["C13"] = {
     "level": "exploration",
-    "rule": "(a) every AutDescription with <=3 rules over 3 state names (q, q0, 1) x 3 symbols with ranks 0..2 x every final set x named/anonymous: ParseString(Serialize(d)) == d, plus three textual "
+    "rule": "(a) every AutDescription with <=3 rules over 3 state names (q, q0, 1; and with <=2 rules over the name tables {q-0, x>y, _}/{cons-2, a>, -} and {>, States, p.1}/{Final, +, a-}: every character class a name may contain, a lone '-' or '>' included) x 3 symbols with ranks 0..2 x every final set x named/anonymous: ParseString(Serialize(d)) == d, plus three textual "
             "variants of the same description (nullary rules written with '()' and with blank-only parentheses, runs of blanks/tabs, blank lines, sections reordered, no blanks at all), and for 6 rule lines EVERY placement of 4 fillers (nothing, blank, tab, run of all non-newline isspace characters) in every gap between atoms; (b) every automaton of TA(2..3,Sigma,<=3) "
             "in expl / bdd-bu / bdd-td and every NFA of FA(2..3,{a,b},<=4) (also with two start symbols on a start state) in expl_fa: load with a state dictionary, dump, load the dump with a "
             "fresh dictionary, dump: first dump == loaded description, second dump == first; (c) arbitrary text: ALL token strings up to length 5 over a 21-token alphabet (keywords, "
@@ -278,8 +278,8 @@ PLAN["C13"] = {
     "assumptions": COMMON_ASSUMPTIONS + ["'all byte strings' is decided only for the bounded token language above (deviation from well-formed text is bounded, not the length of the well-formed part)"],
     "claim": "Every description / automaton / token string / token edit of the stated finite domains.",
     "technique": "bounded exhaustive enumeration of descriptions, automata and token strings (all strings to a length, all 1- and 2-edit deviations from valid templates), sanitizer as crash oracle",
-    "quick": [("rel", "c13.desc.k3"), ("rel", "c13.enc.tree.n2s2k3"), ("rel", "c13.enc.tree.n3s3pk3"), ("rel", "c13.enc.tree.ov.n2k3"), ("rel", "c13.enc.fa.n3l2k4"), ("rel", "c13.gaps"), ("rel", "c13.text.len5"), ("rel", "c13.edit2"), ("rel", "c13.bytes.len3"), ("rel", "c13.byteedit1"), ("asan", "c13.text.len4"), ("asan", "c13.edit1"), ("asan", "c13.bytes.len2"), ("asan", "c13.byteedit1")],
-    "thorough": [("rel", "c13.desc.k3"), ("rel", "c13.enc.tree.n2s2k3"), ("rel", "c13.enc.tree.n3s3pk3"), ("rel", "c13.enc.tree.ov.n2k3"), ("rel", "c13.enc.fa.n3l2k4"), ("rel", "c13.gaps"), ("asan", "c13.gaps"), ("rel", "c13.text.len5"), ("rel", "c13.edit2"), ("rel", "c13.bytes.len3"), ("rel", "c13.byteedit1"), ("asan", "c13.text.len5"), ("asan", "c13.edit2"), ("asan", "c13.bytes.len3"), ("asan", "c13.byteedit1")],
+    "quick": [("rel", "c13.desc.k3"), ("rel", "c13.desc.names1.k2"), ("rel", "c13.desc.names2.k2"), ("rel", "c13.enc.tree.names.n2k3"), ("rel", "c13.enc.tree.n2s2k3"), ("rel", "c13.enc.tree.n3s3pk3"), ("rel", "c13.enc.tree.ov.n2k3"), ("rel", "c13.enc.fa.n3l2k4"), ("rel", "c13.gaps"), ("rel", "c13.text.len5"), ("rel", "c13.edit2"), ("rel", "c13.bytes.len3"), ("rel", "c13.byteedit1"), ("asan", "c13.text.len4"), ("asan", "c13.edit1"), ("asan", "c13.bytes.len2"), ("asan", "c13.byteedit1")],
+    "thorough": [("rel", "c13.desc.k3"), ("rel", "c13.desc.names1.k3"), ("rel", "c13.desc.names2.k3"), ("rel", "c13.enc.tree.names.n2k3"), ("rel", "c13.enc.tree.n2s2k3"), ("rel", "c13.enc.tree.n3s3pk3"), ("rel", "c13.enc.tree.ov.n2k3"), ("rel", "c13.enc.fa.n3l2k4"), ("rel", "c13.gaps"), ("asan", "c13.gaps"), ("rel", "c13.text.len5"), ("rel", "c13.edit2"), ("rel", "c13.bytes.len3"), ("rel", "c13.byteedit1"), ("asan", "c13.text.len5"), ("asan", "c13.edit2"), ("asan", "c13.bytes.len3"), ("asan", "c13.byteedit1")],
     "require": {"all": ["class_empty_final_set", "class_empty_transition_section", "class_nullary_rule", "class_start_state_with_two_start_symbols", "dump_load_cycles"]},
 }
 
